@@ -242,3 +242,33 @@ def leaf_battery(rng, n):
             enc = enc[:-1]
         out.append((rng.choice(["ber", "cer", "der"]), enc, rng.choice(LEAF_READERS[t])))
     return out
+
+
+def truncated_leaves(tags=None):
+    """(mode, data, script), systematically: every typed reader of the given tags on encodings whose
+    announced length reaches beyond the octets that are there - at top level, inside a parent that
+    announces them as well, and inside an honest parent (the child then claims more than the parent has).
+    Deterministic.  Added after seeded change C19-5 turned out to be caught by a cross-stream sample only:
+    every property that has typed readers runs this family for its own tags."""
+    out = []
+    samples = {
+        0x02: [b"\x05", b"\x00\x80", b"\x7f\xff", b"\xff\x7f\x00"],
+        0x01: [b"\xff", b"\x00"],
+        0x05: [b""],
+        0x06: [b"\x2a", b"\x2a\x86\x48", b"\x51\x83\x00"],
+        0x03: [b"\x00", b"\x00\xaa", b"\x03\xa8"],
+        0x04: [b"", b"ab", b"\x00" * 9],
+        0x0c: [b"ab", b"\xc3\xa9"], 0x12: [b"12"], 0x13: [b"Ab"], 0x16: [b"ab"],
+    }
+    for t in (tags or list(LEAF_READERS)):
+        for c in samples[t]:
+            for extra in (1, 3, 130):
+                enc = bytes([t]) + length(len(c) + extra) + c
+                lying = b"\x30" + length(len(enc) + extra) + enc
+                honest = b"\x30" + length(len(enc)) + enc
+                for m in ("ber", "cer", "der"):
+                    for rd in LEAF_READERS[t]:
+                        out.append((m, enc, rd))
+                        out.append((m, lying, "tc { %s }" % rd))
+                        out.append((m, honest, "tc { %s }" % rd))
+    return out
